@@ -504,6 +504,16 @@ func (o *ObjectSchema) Validate(data any) error {
 }
 
 func (o *ObjectSchema) applySubObjectDefaultValues(propertyID string, property *PropertySchema, rawData map[string]any) {
+	o.applySubObjectDefaultValuesOnPath(propertyID, property, rawData, map[Object]struct{}{o: {}})
+}
+
+// applySubObjectDefaultValuesOnPath does the work of applySubObjectDefaultValues. The path holds the objects whose
+// defaults are being filled in right now. A struct cannot contain itself by value, so an object that turns up on its
+// own path is reached through a pointer field (a list node, a tree): such a field stays nil when it is absent, and
+// following it would never end.
+func (o *ObjectSchema) applySubObjectDefaultValuesOnPath(
+	propertyID string, property *PropertySchema, rawData map[string]any, path map[Object]struct{},
+) {
 	reflectedType := property.ReflectedType()
 	if reflectedType.Kind() == reflect.Pointer {
 		return
@@ -517,6 +527,11 @@ func (o *ObjectSchema) applySubObjectDefaultValues(propertyID string, property *
 	default:
 		return
 	}
+	if _, onPath := path[subObject]; onPath {
+		return
+	}
+	path[subObject] = struct{}{}
+	defer delete(path, subObject)
 	data := map[string]any{}
 	if _, ok := rawData[propertyID]; ok {
 		// A copy: the value is the property's decoded default, which is cached in the schema and shared by all
@@ -528,7 +543,7 @@ func (o *ObjectSchema) applySubObjectDefaultValues(propertyID string, property *
 		data[k] = v
 	}
 	for subPropertyID, subProperty := range subObject.Properties() {
-		o.applySubObjectDefaultValues(subPropertyID, subProperty, data)
+		o.applySubObjectDefaultValuesOnPath(subPropertyID, subProperty, data, path)
 	}
 	if len(data) != 0 {
 		rawData[propertyID] = data
